@@ -10,7 +10,7 @@ import z3
 I = z3.IntSort()
 B = z3.BoolSort()
 A = z3.ArraySort(I, I)
-A2 = z3.ArraySort(I, I, I)
+A2 = z3.ArraySort(I, A)
 _cnt = itertools.count()
 
 
@@ -161,27 +161,33 @@ def fresh_seq(name, kind, elem, n=None, dtype=None):
 
 
 class Mat:
-    """2-D numpy int array: arr2[r, c]; rows/cols z3 ints."""
+    """2-D numpy int array as a nested array: arr2[r][c]; rows/cols z3 ints."""
 
     def __init__(self, arr2, rows, cols, dtype="int"):
         self.arr2, self.rows, self.cols, self.dtype = arr2, rows, cols, dtype
 
     def at(self, r, c):
-        return self.arr2[r, c]
+        return self.arr2[r][c]
+
+    def row(self, r):
+        """accessor[r]: reading view of one row (a 1-D array of length cols)."""
+        s = Seq("nd", "int", self.arr2[r], self.cols, dtype=self.dtype)
+        s.row_of = (self, r)
+        return s
 
     def store(self, r, c, v):
-        return Mat(z3.Store(self.arr2, r, c, v), self.rows, self.cols, self.dtype)
+        return Mat(z3.Store(self.arr2, r, z3.Store(self.arr2[r], c, v)), self.rows, self.cols, self.dtype)
+
+    def store_row(self, r, row_arr):
+        return Mat(z3.Store(self.arr2, r, row_arr), self.rows, self.cols, self.dtype)
+
+
+def const_mat(v, rows, cols):
+    return Mat(z3.K(I, z3.K(I, iv(v))), rows, cols)
 
 
 class Row:
-    """accessor[v] : a view of one row of a Mat (writes through it reach the matrix)."""
-
-    def __init__(self, mat_name, mat, r):
-        self.mat_name, self.mat, self.r = mat_name, mat, r
-        self.n = mat.cols
-
-    def at(self, j):
-        return self.mat.at(self.r, j)
+    pass
 
 
 class Obj:
